@@ -261,6 +261,24 @@ def scan_function(prog: Prog, fn: Fn) -> Iterator[Site]:
                 elif _in_try_catching(prog, n, ("ValueError",)):
                     site.discharged = "inside try/except ValueError"
                 yield site
+        # ---- starred unpacking: `a, *rest = xs` needs at least as many elements as plain targets --------------------------------
+        if isinstance(n, ast.Assign) and len(n.targets) == 1 and isinstance(n.targets[0], (ast.Tuple, ast.List)) and any(isinstance(e, ast.Starred) for e in n.targets[0].elts):
+            need = len([e for e in n.targets[0].elts if not isinstance(e, ast.Starred)])
+            src = _is_seq_source(prog, fn, n.value)
+            if src is None and isinstance(n.value, (ast.Name, ast.Call, ast.Attribute)):
+                t_ = prog.infer(n.value, fn)
+                if any(a.kind == "list" for a in t_.alts()):
+                    src = "list"
+            if need > 0 and src is not None:
+                site = Site(fn, n, norm_base(prog, fn, n.value), f"unpack:{need}+", f"`{u(n)[:60]}` needs at least {need} element(s) of {src}")
+                facts = fl.facts_for(n)
+                vt = u(n.value)
+                lo, _ = _len_facts(facts, {vt})
+                if lo is not None and lo >= need or any(p and t == vt for t, p in facts) and need == 1:
+                    site.discharged = "dominated by a length / non-emptiness proof"
+                elif _in_try_catching(prog, n, ("ValueError",)):
+                    site.discharged = "inside try/except ValueError"
+                yield site
         # ---- next() without default -----------------------------------------------------------
         if isinstance(n, ast.Call) and isinstance(n.func, ast.Name) and n.func.id == "next" and len(n.args) == 1:
             site = Site(fn, n, norm_base(prog, fn, n.args[0]), "next", f"`{u(n)[:60]}` without default")
